@@ -668,6 +668,20 @@ class Interp:
                 tot = tot + i
             # or-patterns binding the same names to the payload of different variants
             return tot, (lambda: self.bind_or(fr, p, scrut))
+        if k == "Variant" and not isinstance(scrut, PathVal):
+            # a computed enum value: the constant / case split produced by inlining a helper such as `self.body_kind()`
+            def ind_of(v):
+                if isinstance(v, tuple) and len(v) == 3 and v[0] == "variant":
+                    return Poly.const(1 if (v[1] == p["variant"] and v[2] == p["adt"]) else 0)
+                if isinstance(v, Cases):
+                    tot = Poly()
+                    for i, x in v.pairs:
+                        tot = tot + i * ind_of(x)
+                    return tot
+                raise Unsupported("match on non-place value")
+            if p.get("subs"):
+                raise Unsupported("payload pattern on a computed enum value")
+            return ind_of(scrut), (lambda: None)
         if k == "Variant":
             if not isinstance(scrut, PathVal):
                 raise Unsupported("match on non-place value")
@@ -835,6 +849,35 @@ class Interp:
             return self.eval(fr, args[0])
         if name == "sum" and tr.endswith("iterator::Iterator") and len(args) == 1:
             return self.eval_sum(fr, args[0])
+        if name in ("try_for_each", "for_each") and tr.endswith("iterator::Iterator") and len(args) == 2:
+            # `path.iter().try_for_each(|item| { writes })`: the same effect as `for item in &path { writes }`
+            src = self.eval(fr, args[0])
+            clo = self.eval(fr, args[1])
+            if isinstance(src, PathVal) and isinstance(clo, tuple) and clo[0] == "closure":
+                f = self.F.body_fn(clo[1])
+                params = [q for q in f["thir"]["params"]]
+                if f["kind"] == "Closure" and params and params[0].get("pat") is None:
+                    params = params[1:]
+                if len(params) != 1:
+                    raise Unsupported("closure arity in %s" % name)
+                cfr = Frame()
+                cfr.env = dict(clo[2].env)
+                self.bind(cfr, params[0]["pat"], PathVal(("$it",)))
+                w0, t0 = self.written, len(self.trace)
+                self.written = Poly()
+                self.depth += 1
+                try:
+                    self.eval(cfr, nbody(self.F, clo[1]))
+                finally:
+                    self.depth -= 1
+                body_w = self.written
+                tr_ = self.trace[t0:]
+                del self.trace[t0:]
+                self.written = w0 + g_sum(src.path, body_w)
+                if tr_:
+                    self.trace.append(("each", fmt_path(src.path), tr_))
+                return UNIT
+            raise Unsupported("%s over %r" % (name, src))
         if name == "from" and len(args) == 1:
             return self.eval_quiet(fr, args[0])
         if name == "into" and len(args) == 1:
